@@ -247,4 +247,29 @@ def Known : C → Bool
   | .not a => decide (lvl a < 7) || Known a
   | .and a b | .or a b => Known a || Known b
 
+/-! ### array sections: `PymbolicMapper.map_slice`
+
+Primaries (subscripts, components, calls) are otherwise outside the Lean model; sections are modelled at the level of
+which bounds are present.  `sliceChildren` summarises, by form, the children of the pymbolic `Slice` node the parser
+builds for `lo:hi:st` (`:` → `(None,)`, `lo:` → `(lo, None)`, `::st` → `(None, None, st)` …); `mapSlice` is
+`map_slice` on the mapped children (`len(children) == 1 and children[0] is None` → `(None, None)`);
+`rangeOf` = `RangeIndex.lower / upper / step`. -/
+
+def sliceChildren {α : Type} : Option α → Option α → Option α → List (Option α)
+  | none, none, none => [none]
+  | lo, hi, none => [lo, hi]
+  | lo, hi, some st => [lo, hi, some st]
+
+def mapSlice {α : Type} : List (Option α) → List (Option α)
+  | [none] => [none, none]
+  | cs => cs
+
+def rangeOf {α : Type} (cs : List (Option α)) : Option α × Option α × Option α :=
+  (cs[0]?.join, cs[1]?.join, cs[2]?.join)
+
+/-- what the bounds of a section are to the mapper's tests: absent, the literal `0` (falsy in Python), anything else -/
+inductive Bnd where
+  | zero | other
+deriving Repr, DecidableEq, Inhabited
+
 end LokiModel.C07
